@@ -35,9 +35,15 @@ let handle (lines : string list) : unit =
          let isok = (match o.o_rc with Ok -> true | Fail -> false) in
          Printf.printf "op rc=%s att=%d live=%d\n" (if isok then "ok" else "fail")
            (int_of_nat o.o_att) (List.length o.o_live);
+         let idn = nat_of_int !id in
+         let retried = (not isok) && retry_of idn in
+         if retried then Printf.printf "retry rc=%s\n" (if o.o_retry_ok then "ok" else "fail");
+         let isok = isok || (retried && o.o_retry_ok) in
          if o.o_dbad then print_endline "destroy CRASH"
-         else if isok || dfail_of (nat_of_int !id) then
-           Printf.printf "destroy live=%d\n" (List.length o.o_dlive)
+         else if isok || dfail_of idn then begin
+           if int_of_nat (nvals_of idn) > 0 then
+             Printf.printf "destroy live=%d freed=%d\n" (List.length o.o_dlive) (int_of_nat o.o_freed)
+           else Printf.printf "destroy live=%d\n" (List.length o.o_dlive) end
          else Printf.printf "destroy skipped live=%d\n" (List.length o.o_dlive)
        end)
 
